@@ -151,7 +151,7 @@ CLAIMED = {
    technique="Coq proof: per-code-point lemma from a vm_compute-checked table, lifted by induction to all strings; structural induction for the one-line theorem; string correspondence + reparse oracle",
    ref="5/C04"),
  "C08": dict(
-   text="Theorems over the converter model: C08_dispatch_table (the converted statement kinds are exactly the keys of the code's "
+   text="Theorems over the converter model: C08_dead_code_unchecked_refuted (the unrestricted statement is false of the faithful model: dead statements are not dispatched - known finding); C08_dispatch_table (the converted statement kinds are exactly the keys of the code's "
         "dispatch table, regenerated each run); C08_unsupported_stmt_rejected / _module_rejected - by structural induction over "
         "statements: a statement kind outside the table at ANY nesting depth and position the traversal reaches makes conversion fail; "
         "yield / yield from / await are refused by the expression rewriter; break/continue outside a loop and return outside a "
@@ -216,8 +216,8 @@ CLAIMED = {
         "for loop) and C17_returned_statements_height_list (after `return` in a function body); C17_elif_chain_height_short (an if/elif/.../else chain of n tests under "
         "if_style=short_circuit is one flat `or`: height <= 6 for EVERY n) and C17_elif_chain_height_ifexp (under if_expr: exactly the nesting of the source plus one). "
         "The programs of every height theorem are converted by the real converter on every run (tree equality with the model, the stated bound measured on the real tree). Partial: whether CPython accepts an expression of a given depth (C stack, parser limits, the recursion limit hit "
-        "by CPython's own ast.unparse) is interpreter behaviour; it is measured on a geometric schedule over 30 program families (statements after an early exit included) with the "
-        "default recursion limit. Two known findings (ast.unparse recursion; chain_call depth).",
+        "by CPython's own ast.unparse) is interpreter behaviour; it is measured on a geometric schedule over 50 program families (statements after an early exit, many guard clauses in one block, operator and conditional-expression chains in 17 statement positions) with the "
+        "default recursion limit. Three known findings (ast.unparse recursion; chain_call depth; one nesting level per guard clause of a block).",
    note=TRUST + "Acceptance limits of CPython are measured, not proved.",
    technique="Coq depth bound (induction) over the converter model + measured size schedule per family/config",
    ref="5/C17"),
